@@ -7,6 +7,9 @@ def handle (fn : String) (args : List Json) : String :=
   | "compact" => match args with
     | [a0] => (do let x0 ← Wire.decStr a0; pure (Wire.respondWith Wire.encStr (Gen.imsi.compact x0)) : Option String).getD "badargs"
     | _ => "badargs"
+  | "info" => match args with
+    | [a0] => (do let x0 ← Wire.decStr a0; pure (Wire.respondWith (Wire.encDict Wire.encStr Wire.encStr) (Gen.imsi.info x0)) : Option String).getD "badargs"
+    | _ => "badargs"
   | "is_valid" => match args with
     | [a0] => (do let x0 ← Wire.decStr a0; pure (Wire.respondWith Wire.encBool (Gen.imsi.is_valid x0)) : Option String).getD "badargs"
     | _ => "badargs"
